@@ -24,11 +24,11 @@ META = dict(
     stubs=["PyArg_ParseTuple, Py_BuildValue, PyList_New/Append, PyUnicode_DecodeFSDefault[AndSize], PyErr_*, strcmp, strnlen, strncpy, getutent/setutent/endutent, socket/ioctl/close, syscall, getpriority/setpriority, sysinfo, __errno_location"],
     bounds=dict(quick=dict(utmp="one login record, all 384 bytes symbolic", ioprio="class and level any 32-bit int (round-trip claimed for class 0..3, level 0..7)", nic_name="lengths 0, 1, 15, 16, 40"),
                 thorough=dict(utmp="one record, all bytes symbolic; two records", ioprio="as quick", nic_name="lengths 0..20, 64, 255")),
-    outside=["everything inside CPython and libc (getmntent, getifaddrs, getnameinfo)", "the sanitizer-run formulation of the statement (a different technique)", "psutil_disk_partitions' loop (only libc calls)", "psutil_proc_cpu_affinity_get/set (symbolic CPU_SET indexing is not supported by cir)",
+    outside=["everything inside CPython and libc (getmntent, getifaddrs, getnameinfo)", "the sanitizer-run formulation of the statement (a different technique)", "the parsing glibc's getmntent() does (escapes, field splitting): only the buffer-size contract of getmntent_r and the hand-over of the four strings are checked", "psutil_proc_cpu_affinity_get/set (symbolic CPU_SET indexing is not supported by cir)",
              "psutil_convert_ipaddr's MAC loop", "wrong argument *types* (rejected inside PyArg_ParseTuple, which is trusted)"],
     extra=dict(c_functions_encoded=["arch/linux/users.c:psutil_users", "arch/linux/proc.c:psutil_proc_ioprio_get", "arch/linux/proc.c:psutil_proc_ioprio_set", "_psutil_posix.c:psutil_net_if_mtu",
                                     "_psutil_posix.c:psutil_net_if_flags", "_psutil_posix.c:psutil_posix_getpriority", "_psutil_posix.c:psutil_posix_setpriority", "_psutil_common.c:psutil_check_pid_range",
-                                    "arch/linux/mem.c:psutil_linux_sysinfo"],
+                                    "arch/linux/mem.c:psutil_linux_sysinfo", "arch/linux/disk.c:psutil_disk_partitions"],
                ir="clang -S -emit-llvm -O0 -Xclang -disable-O0-optnone with the Linux macros of setup.py, regenerated from /repo on every run"),
     labels=["memory-in-bounds", "cstring-within-record", "string-within-field", "users-fields", "ioprio-packing", "ioprio-roundtrip", "strncpy-in-bounds", "partitions-filter", "users-tuple"],
 )
@@ -388,6 +388,87 @@ def small_c(ctx, fn):
     res = I.run("@" + fn, [cir.NULL, cir.NULL])
     report(ctx, I, ["memory-in-bounds"], lambda m: {})
     ctx.external("small-paths-completed", bool(res))
+
+
+# ---- disk.c ---------------------------------------------------------------------------------------------------------------
+
+@harness("C17.partitions_c", quick=[dict(linelen=n) for n in (60, 1500, 4000)], thorough=[dict(linelen=n) for n in (10, 60, 1023, 1024, 1500, 4000, 4094)])
+def partitions_c(ctx, linelen):
+    """psutil_disk_partitions: each mount entry's device, mount point, type and options reach Python unmodified and in that order,
+    for a mount line of `linelen` bytes (glibc's getmntent() handles lines up to 4095 bytes; a caller-supplied buffer must not be smaller)"""
+    mod = module("arch/linux/disk.c")
+    names = ["fsname", "dir", "type", "opts"]
+    state = {"strings": [lambda I, st: _cstr(I, st, "path", b"/proc/self/mounts")], "objs": {}}
+
+    def _cstr(I, st, tag, data):
+        k = st.new_obj(tag, len(data) + 1, {i: z3.BitVecVal(b, 8) for i, b in enumerate(data + b"\0")})
+        return cir.Ptr(k, 0, 0, len(data) + 1)
+
+    def entry_strings(I, st):
+        opts = b"rw," + b"lowerdir=/l:" * ((linelen - 40) // 12) if linelen > 60 else b"rw,relatime"
+        return [_cstr(I, st, "fsname", b"/dev/sda1"), _cstr(I, st, "dir", b"/mnt/x y"), _cstr(I, st, "type", b"ext4"), _cstr(I, st, "opts", opts)]
+
+    def fill(I, st, ent):
+        ptrs = entry_strings(I, st)
+        for i, p_ in enumerate(ptrs):
+            I.store(st, cir.Ptr(ent.obj, ent.off + 8 * i), 8, p_)
+            state["objs"][names[i]] = p_.obj
+        return ent
+
+    def getmntent(I, st, w, c, f):
+        n = sum(1 for x in st.log if x[0] == "getmntent")
+        st.log.append(("getmntent",))
+        if n >= 1:
+            return cir.NULL
+        k = st.new_obj("mntent", 40)
+        return fill(I, st, cir.Ptr(k, 0, 0, 40))
+
+    def getmntent_r(I, st, w, c, f, mntbuf, buf, buflen):
+        n = sum(1 for x in st.log if x[0] == "getmntent")
+        st.log.append(("getmntent",))
+        if n >= 1:
+            return cir.NULL
+        I.oblige(st, z3.UGT(z3.ZeroExt(64 - buflen.size(), buflen) if buflen.size() < 64 else buflen, z3.BitVecVal(4095, 64)),
+                 f"getmntent_r: caller buffer smaller than a mount line glibc itself accepts (4095 bytes): a {linelen}-byte entry is silently truncated")
+        o = st.objs[buf.obj]
+        I.oblige(st, z3.ULE(z3.ZeroExt(64 - buflen.size(), buflen) if buflen.size() < 64 else buflen, z3.BitVecVal(o.size - buf.off, 64)), "getmntent_r: buflen larger than the buffer: store out of bounds")
+        return fill(I, st, mntbuf)
+
+    def decode(I, st, w, c, p_):
+        cir.cstring_obligations(I, st, p_, "PyUnicode_DecodeFSDefault")
+        o = cir.newobj(I, st, "str")
+        st.log.append(("decode", p_.obj, o.obj))
+        return o
+
+    def build(I, st, w, c, fmt, *a):
+        st.log.append(("build", cir.const_cstr(I, st, fmt), a))
+        return cir.newobj(I, st, "tuple")
+
+    stubs = {"@PyList_New": lambda I, st, w, c, n: cir.newobj(I, st, "list"), "@PyArg_ParseTuple": parse_stub(state), "@PyEval_SaveThread": lambda I, st, w, c: cir.newobj(I, st, "tstate"),
+             "@PyEval_RestoreThread": cir.nop, "@setmntent": lambda I, st, w, c, *a: cir.newobj(I, st, "FILE"), "@endmntent": lambda I, st, w, c, *a: z3.BitVecVal(1, 32), "@getmntent": getmntent,
+             "@getmntent_r": getmntent_r, "@PyUnicode_DecodeFSDefault": decode, "@Py_BuildValue": build, "@PyList_Append": lambda I, st, w, c, *a: z3.BitVecVal(0, 32), "@PyErr_Format": lambda *a: cir.NULL,
+             "@PyErr_SetFromErrnoWithFilename": lambda *a: cir.NULL, "@psutil_debug": cir.nop, "@_Py_Dealloc": cir.nop, "@Py_XDECREF": cir.nop, "@Py_DecRef": cir.nop, "@Py_IncRef": cir.nop}
+    I = cir.Interp(mod, stubs)
+    res = I.run("@psutil_disk_partitions", [cir.NULL, cir.NULL])
+    ok, why = bool(res), "no completed path"
+    nb = 0
+    for st, ret in res:
+        decs = {x[2]: x[1] for x in st.log if x[0] == "decode"}
+        for b in [x for x in st.log if x[0] == "build"]:
+            nb += 1
+            args = b[2]
+            got = [decs.get(getattr(args[0], "obj", None)), decs.get(getattr(args[1], "obj", None)), getattr(args[2], "obj", None), getattr(args[3], "obj", None)]
+            want = [state["objs"][n_] for n_ in names]
+            if got != want:
+                ok, why = False, f"tuple built from {got}, the entry's strings are {want} (device, mount point, type, options)"
+    trunc = [f for f in I.findings if "getmntent_r" in f[0]]
+    for f in trunc:
+        ctx.external("mount-entry-not-truncated", False, {}, detail=f[0])
+    if not trunc:
+        ctx.external("mount-entry-not-truncated", True)
+    I.findings = [f for f in I.findings if "getmntent_r" not in f[0]]
+    report(ctx, I, ["memory-in-bounds", "cstring-within-record"], lambda m: {})
+    ctx.external("partitions-tuple-fields", ok and nb > 0, {}, detail=why)
 
 
 # ---- Python side ---------------------------------------------------------------------------------------------------------------
